@@ -240,6 +240,9 @@ func probesFor(p PatSpec) []OriginSpec {
 				}
 			}
 		}
+		if !o.IP6 && !wellFormedNumericHost(o.Host) {
+			return
+		}
 		out = append(out, o)
 	}
 	ports := []int{0, 1, 80, 443, 8080, 65535}
@@ -326,6 +329,42 @@ func validSchemeSpec(s string) bool {
 	for i := 1; i < len(s); i++ {
 		c := s[i]
 		if !(c >= 'a' && c <= 'z' || c >= '0' && c <= '9' || c == '+' || c == '-' || c == '.') {
+			return false
+		}
+	}
+	return true
+}
+
+// wellFormedNumericHost: a browser's URL parser treats a host whose last label is a number as an IPv4 address and
+// serializes it as a canonical dotted quad (or fails); so a host "ending in a number" is well-formed only if it IS a
+// canonical dotted quad. Hosts not ending in a number are not judged here.
+func wellFormedNumericHost(h string) bool {
+	labels := strings.Split(strings.TrimSuffix(h, "."), ".")
+	last := labels[len(labels)-1]
+	numeric := last != ""
+	for i := 0; i < len(last); i++ {
+		if last[i] < '0' || last[i] > '9' {
+			numeric = false
+		}
+	}
+	if !numeric && !(strings.HasPrefix(last, "0x") || strings.HasPrefix(last, "0X")) {
+		return true
+	}
+	if strings.HasSuffix(h, ".") || len(labels) != 4 {
+		return false
+	}
+	for _, l := range labels {
+		if l == "" || len(l) > 3 || (len(l) > 1 && l[0] == '0') {
+			return false
+		}
+		n := 0
+		for i := 0; i < len(l); i++ {
+			if l[i] < '0' || l[i] > '9' {
+				return false
+			}
+			n = n*10 + int(l[i]-'0')
+		}
+		if n > 255 {
 			return false
 		}
 	}
